@@ -664,6 +664,9 @@ func fileCrashRuns(seed int64, n int, scratch string, self string, out *json.Enc
 	id := 0
 	for c := 0; c < n; c++ {
 		size := []int{1, 2, 7, 64, 300, 5000}[rng.Intn(6)]
+		if c%8 == 5 {
+			size = 1<<20 + 9 // a node of more than a mebibyte
+		}
 		pseed := rng.Int63()
 		payload := filePayload(size, pseed)
 		name := randName(rng)
